@@ -87,6 +87,7 @@ def tie(ctx):
     dist = collections.Counter()
     outcome = collections.Counter(r.split(" ")[0] for r in real)
     unscoped = []
+    rsbad = []
     free = []
     for i, m, body, ok_pre in rows:
         cls = cases[i][0]
@@ -105,6 +106,8 @@ def tie(ctx):
                              "preamble_identical": ok_pre})
         if len(parts) > 2 and parts[2] != "SCOPED":
             unscoped.append((i, parts[2]))
+        if len(parts) > 3 and parts[3] != "RSOK":
+            rsbad.append(i)
         fv = luatext.free_v_names(body)
         if fv:
             free.append((i, fv[:3]))
@@ -116,6 +119,10 @@ def tie(ctx):
         if not any(i == j for j, _ in free):
             ctx.brk("model:ir_scoped", "%s at IR instruction %s" % (cases[i][1][:200].replace("\n", "\\n"), w))
     dist["accepted"] = len(rows)
+    dist["resolved_level_scoping_rejected"] = len(rsbad)
+    ctx.c10["rsbad"] = rsbad
+    for i in rsbad[:3]:
+        vlib.log("rs_resolved = false:", cases[i][1][:300].replace("\n", "\\n"))
     samples = []
     for i, m, body, _ in rows[:2]:
         samples.append({"class": cases[i][0], "program": cases[i][1][:400], "lua_lines": len(body.split("\n"))})
